@@ -41,6 +41,7 @@ THEOREMS = [
     "OllamaVerif.C16.alloc_le_free_fixed",
     "OllamaVerif.C16.W1_fixed_variant",
     "OllamaVerif.C16.W2_graph_wraps_fixed",
+    "OllamaVerif.C16.W3_minimum_wraps_fixed",
 ]
 # The code variant the model must mirror (0 = pinned overhead comparisons, 1 = with fix C16-W1) is detected
 # by the driver on every run by probing the real estimator with the W1 input; it is the first argument of
